@@ -194,7 +194,8 @@ class Interp:
     @staticmethod
     def _key(pl):
         from .engine import proj_path
-        return (pl['l'],) + proj_path(pl['p'])
+        # a downcast (`as Some`) does not change which field is meant: `(x as Some).0` reads what `x = Some(v)` stored as x.0
+        return (pl['l'],) + tuple(t for t in proj_path(pl['p']) if not t.startswith('as:'))
 
     def _load(self, st, body, pl):
         k = self._key(pl)
